@@ -398,13 +398,30 @@ Proof.
   repeat (destruct Hc as [Hc|Hc]; [subst c; reflexivity|]). contradiction.
 Qed.
 
+(* big.Int.SetString on a non-empty digit string: its value, whatever its length *)
+Lemma big_of_digits d :
+  nonempty_digits d = true -> big_of d = Some (Z.of_N (digits_val d)).
+Proof.
+  intros Hd. destruct d as [|c r]; [discriminate|].
+  unfold big_of.
+  assert (Hc : is_digit c = true).
+  { simpl in Hd. apply andb_true_iff in Hd. tauto. }
+  assert (E1 : ceqb c "-"%char = false).
+  { apply digit_cases in Hc. simpl in Hc.
+    repeat (destruct Hc as [Hc|Hc]; [subst c; reflexivity|]). contradiction. }
+  assert (E2 : ceqb c "+"%char = false).
+  { apply digit_cases in Hc. simpl in Hc.
+    repeat (destruct Hc as [Hc|Hc]; [subst c; reflexivity|]). contradiction. }
+  rewrite E1, E2, Hd. reflexivity.
+Qed.
+
 Definition digit_token (d : bytes) : Prop :=
   nonempty_digits d = true /\ (digits_val d < two63)%N.
 
 Lemma elem_of_digits d : digit_token d -> elem_of d = numN (digits_val d).
 Proof.
   intros [Hd Hv]. unfold elem_of. rewrite (normalize_digits d Hd).
-  rewrite (atoi_digits d Hd Hv). reflexivity.
+  rewrite (big_of_digits d Hd). reflexivity.
 Qed.
 
 Lemma map_elem_of_digits ds :
@@ -716,7 +733,7 @@ Qed.
 
 Lemma elem_of_wf t : wf_elem (elem_of t) = true.
 Proof.
-  unfold elem_of. destruct (atoi (normalizeQualifier t)); [reflexivity|].
+  unfold elem_of. destruct (big_of (normalizeQualifier t)); [reflexivity|].
   cbn [wf_elem]. rewrite normalize_wf. reflexivity.
 Qed.
 
